@@ -125,7 +125,7 @@ def materialise(case, tmp):
         ipaths.append(p)
     if case["output"] == "pretty":
         argv += ["--output", "pretty"]
-    if case["error_format"]:
+    if case["error_format"] is not None:
         argv += ["--error-format", case["error_format"]]
     if case["validator"]:
         argv += ["--validator", VALIDATOR_NAMES[case["validator"]]]
@@ -191,7 +191,7 @@ def compare(res, case, rc, out, err, ok, units, where):
     if case["output"] == "plain":
         if out != "":
             fail("plain-writes-stdout", "")
-        fmt = case["error_format"] or "{error.instance}: {error.message}\n"
+        fmt = case["error_format"] if case["error_format"] is not None else "{error.instance}: {error.message}\n"
         pos = 0
         for u in units:
             if u[0] in ("err", "schema-err"):
